@@ -64,19 +64,20 @@ func (t *CciStrategy) Report(c <-chan *asset.Snapshot) *helper.Report {
 	// snapshots[0] -> dates
 	// snapshots[1] -> highs       |
 	// snapshots[2] -> lows        |
-	// snapshots[3] -> closings[1] |> ccis
-	//                 closings[0] -> closings
+	// snapshots[3] -> cciClosings |> ccis
+	// snapshots[5] -> closings
 	// snapshots[4] -> actions     -> annotations
 	//              -> outcomes
 	//
-	snapshots := helper.Duplicate(c, 5)
+	snapshots := helper.Duplicate(c, 6)
 
 	dates := asset.SnapshotsAsDates(snapshots[0])
 	highs := asset.SnapshotsAsHighs(snapshots[1])
 	lows := asset.SnapshotsAsHighs(snapshots[2])
-	closings := helper.Duplicate(asset.SnapshotsAsHighs(snapshots[3]), 2)
+	cciClosings := asset.SnapshotsAsHighs(snapshots[3]) // same inputs as Compute, so the CCI column matches the actions
+	closings := asset.SnapshotsAsClosings(snapshots[5])
 
-	ccis := t.Cci.Compute(highs, lows, closings[1])
+	ccis := t.Cci.Compute(highs, lows, cciClosings)
 	ccis = helper.Shift(ccis, t.Cci.IdlePeriod(), 0)
 
 	actions, outcomes := strategy.ComputeWithOutcome(t, snapshots[4])
@@ -87,7 +88,7 @@ func (t *CciStrategy) Report(c <-chan *asset.Snapshot) *helper.Report {
 	report.AddChart()
 	report.AddChart()
 
-	report.AddColumn(helper.NewNumericReportColumn("Close", closings[0]))
+	report.AddColumn(helper.NewNumericReportColumn("Close", closings))
 	report.AddColumn(helper.NewNumericReportColumn("CCI", ccis), 1)
 	report.AddColumn(helper.NewAnnotationReportColumn(annotations), 0, 1)
 
